@@ -1142,6 +1142,8 @@ def check_unresolved_raises(rep, rule):
             # (the name may be re-used for the next phase: only tests that see *this* binding count)
             def binds_u(s2):
                 tg = s2.targets if isinstance(s2, ast.Assign) else ([s2.target] if isinstance(s2, (ast.AugAssign, ast.AnnAssign, ast.For)) else [])
+                if isinstance(s2, ast.Assign) and len(tg) == 1 and isinstance(tg[0], ast.Name) and tg[0].id == u and norm(s2.value) in forms:
+                    return False        # u = sorted(u): the same names under the same local
                 return any(isinstance(n_, ast.Name) and n_.id == u for t_ in tg for n_ in ast.walk(t_))
             rebinds = [s2 for s2 in stmts_of(fi.node) if s2 is not st and binds_u(s2)]
             live = cfg.reach(cfg.nodes_of(st), avoid=cfg.nodes_of_all(rebinds))
@@ -1165,6 +1167,30 @@ def check_unresolved_raises(rep, rule):
                       'non-empty %s => raise NameError on every path to the return' % u if ok else why, core, st)
     if n < 3:
         raise AnalysisError('make_middleware_chain: %d make_chain calls (floor 3)' % n)
+    # the set that is tested is computed on every path: a phase that is given its chain some other way than through make_chain
+    # (a fast path for "no middleware in this phase") and binds the *constant* empty set reports nothing, whatever the final
+    # function requires
+    tested = set()
+    for st in stmts_of(fi.node):
+        if isinstance(st, ast.Assign) and isinstance(st.value, ast.Call) and call_name(st.value) == 'make_chain' and \
+                isinstance(st.targets[0], ast.Tuple) and len(st.targets[0].elts) == 3 and isinstance(st.targets[0].elts[2], ast.Name):
+            tested.add(st.targets[0].elts[2].id)
+    for u in sorted(tested):
+        for st_, v, idx in assigned_value(fi.node, u):
+            if isinstance(idx, int) and isinstance(v, (ast.Tuple, ast.List)) and idx < len(v.elts):
+                v = v.elts[idx]
+            elif idx is not None:
+                continue
+            if not isinstance(v, ast.expr):
+                continue
+            const_empty = (isinstance(v, (ast.Tuple, ast.List, ast.Set, ast.Dict)) and not getattr(v, 'elts', getattr(v, 'keys', None))) or \
+                (isinstance(v, ast.Call) and call_name(v) in ('set', 'frozenset', 'tuple', 'list') and not v.args and not v.keywords) or \
+                (isinstance(v, ast.Constant) and not v.value)
+            if const_empty:
+                rep.fail(rule, fkey(fi, 'unresolved set %s is computed' % u),
+                         'on a path that does not go through make_chain the unresolved set %s is the constant %s: whatever the final function '
+                         'of that phase requires -- e.g. "context" outside the render phase, which the request phase never sees -- is not '
+                         'reported at construction' % (u, short(v, 30)), core, st_)
     # 'next' must not be taken by endpoint / render
     ps = fi.params()
     for who in (ps[1], ps[2]):
@@ -1639,6 +1665,7 @@ def check_accessors(rep, rule, kinds=True):
         ok = any(isinstance(n, ast.Call) and call_tail(n) == 'get_defaults_dict' for n in walk_body(fi.node))
         rep.check(rule, fkey(fi, 'defaults accessor'), ok, 'defaults come from get_defaults_dict() (positional and keyword-only defaults)' if ok else
                   '%s does not use get_defaults_dict()' % q, mod, fi.node)
+    check_fb_stateless(rep, rule, sinter.func('get_fb'))
     if not kinds:
         return
     # parameter kinds
@@ -1666,6 +1693,84 @@ def check_accessors(rep, rule, kinds=True):
     ok = any(raise_type(r) == 'TypeError' for r in raises_of(gf))
     rep.check(rule, fkey(gf, 'strange args rejected'), ok, 'non-string argument names raise TypeError' if ok else
               'get_fb no longer rejects non-string argument names', sinter, gf.node)
+
+
+def check_fb_stateless(rep, rule, gf):
+    """What get_fb reports for a callable is computed from *that* callable, every time: (i) inspecting a callable leaves
+    nothing behind on it -- no attribute store, ``setattr``, ``__dict__`` entry: the one attribute get_fb trusts as a signature
+    supplied by the user (``_sinter_fb``) travels with the function's ``__dict__`` (``functools.wraps`` copies it onto a
+    wrapper whose own signature differs); (ii) a module-level memo, if there is one, is keyed by the callable object itself
+    (and plain parameters), never by something read *off* it (``f.__code__``, ``f.__name__``, ``id(f)``): a bound method and
+    its function, a wrapper and the wrapped, share such a projection but not their signature."""
+    sinter = gf.mod
+    ps = gf.params()
+    F = ps[0]
+
+    def about_f(e, depth=0):
+        """The expression reads something off the inspected callable (a projection), directly or through locals."""
+        if depth > 3:
+            return False
+        for n in ast.walk(e):
+            if isinstance(n, ast.Name) and n.id == F:
+                return True
+            if isinstance(n, ast.Name) and n.id not in ps:
+                for st_, v, idx in assigned_value(gf.node, n.id):
+                    if isinstance(v, ast.expr) and v is not e and about_f(v, depth + 1):
+                        return True
+        return False
+
+    def is_f(e, depth=0):
+        """The callable itself (under a local name)."""
+        if isinstance(e, ast.Name) and e.id == F:
+            return True
+        if isinstance(e, ast.Name) and e.id not in ps and depth < 3:
+            v = _single_value(gf, e.id)
+            return v is not None and is_f(v, depth + 1)
+        return False
+    stores = []
+    for e in effects.effects_in(gf.node):
+        if e.kind in ('store', 'delete', 'mutcall') and e.chain and e.root is not None and is_f(ast.Name(id=e.root, ctx=ast.Load())):
+            stores.append(e)
+        elif e.kind in ('store', 'delete', 'mutcall') and e.chain and e.chain[0] == 'vars' and isinstance(e.target, (ast.Subscript, ast.Call)):
+            stores.append(e)
+    ok = not stores
+    rep.check(rule, fkey(gf, 'leaves nothing on the callable'), ok,
+              'inspecting a callable stores nothing on it (a signature found on a function is one its author put there)' if ok else
+              'get_fb stores on the callable it inspects (%s): the function\'s __dict__ travels to every functools.wraps wrapper made '
+              'afterwards, and get_fb then trusts the copied attribute -- the wrapper is described by the signature of the function it '
+              'wraps, not by its own' % short(stores[0].node, 70), sinter, stores[0].node if stores else gf.node)
+    # module-level memo tables read or written here
+    tables = set(n for n, vals in sinter.assigns.items()
+                 if any(isinstance(v, ast.Dict) or (isinstance(v, ast.Call) and call_name(v) in ('dict', 'OrderedDict', 'defaultdict', 'WeakKeyDictionary',
+                                                                                               'weakref.WeakKeyDictionary')) for v in vals if isinstance(v, ast.expr)))
+    tables -= set(ps) | set(n.id for n in walk_body(gf.node) if isinstance(n, ast.Name) and isinstance(n.ctx, ast.Store))
+    keys = []
+    for n in walk_body(gf.node):
+        if isinstance(n, ast.Subscript) and isinstance(n.value, ast.Name) and n.value.id in tables:
+            keys.append((n.slice, n))
+        elif isinstance(n, ast.Call) and isinstance(n.func, ast.Attribute) and isinstance(n.func.value, ast.Name) and n.func.value.id in tables and \
+                n.func.attr in ('get', 'setdefault', 'pop', '__getitem__', '__setitem__', '__contains__') and n.args:
+            keys.append((n.args[0], n))
+        elif isinstance(n, ast.Compare) and len(n.ops) == 1 and isinstance(n.ops[0], (ast.In, ast.NotIn)) and \
+                isinstance(n.comparators[0], ast.Name) and n.comparators[0].id in tables:
+            keys.append((n.left, n))
+    bad = []
+    for k, node in keys:
+        kk = _deref(gf, k)
+        parts = list(kk.elts) if isinstance(kk, ast.Tuple) else [kk]
+        for part in parts:
+            part = _deref(gf, part)
+            if isinstance(part, ast.Constant) or (isinstance(part, ast.Name) and part.id in ps) or is_f(part):
+                continue
+            if about_f(part):
+                bad.append((part, node))
+    if keys:
+        ok = not bad
+        rep.check(rule, fkey(gf, 'memo keyed by the callable'), ok,
+                  'remembered signatures are looked up by the callable object itself' if ok else
+                  'get_fb remembers signatures under a key read off the callable (%s in %s), not under the callable: two callables that share '
+                  'it -- a bound method and its function, a wrapper and the function it wraps -- get one signature, whichever was seen first'
+                  % (short(bad[0][0], 50), short(bad[0][1], 60)), sinter, bad[0][1] if bad else keys[0][1])
 
 
 def check_self_drop(rep, rule, gf):
@@ -2006,8 +2111,12 @@ def _merge_records(repo):
         init_st = [st_ for st_, v, idx in assigned_value(fi.node, M) if not isinstance(st_, ast.AugAssign)]
         ok = len(init_vals) == 1 and init_vals[0] is not None and copy_of(init_vals[0], P_NEW) and not isinstance(init_vals[0], ast.Name) and \
             not (isinstance(init_vals[0], ast.Call) and call_name(init_vals[0]) in ('tuple', 'iter'))      # a fresh *list*
+        aliased = len(init_vals) == 1 and isinstance(init_vals[0], ast.Name) and copy_of(init_vals[0], P_NEW)
         d = ('the merged list starts as a copy of the new (outer) list, in order' if ok else
-             'the merged list does not start as list(%s): the outer list no longer comes first (or is not all there)' % P_NEW)
+             ('the merged list *is* the list the caller passed as %s (no copy): appending the old (route-level) middlewares changes the '
+              'binding application\'s own list, and every route bound afterwards is merged against -- and runs -- the middlewares of the '
+              'routes bound before it' % P_NEW if aliased else
+              'the merged list does not start as list(%s): the outer list no longer comes first (or is not all there)' % P_NEW))
         rec('starts with new', init_st[0] if init_st else fi.node, (ok, d), (ok, d))
         ok = len(loops) == 1 and copy_of(loops[0].iter, P_OLD) and isinstance(loops[0].target, ast.Name)
         d = 'the old (inner) list is walked in order' if ok else 'merge does not iterate the old list in order'
@@ -2304,6 +2413,27 @@ def check_merge_complete(rep, rule):
             rep.check(rule, r['key'] + ' (nothing lost)', r['complete'][0], r['complete'][1], fi.mod, r['node'])
 
 
+def check_merge_fresh(rep, rule):
+    """merge_middlewares builds a list of its own: neither argument -- the binding application's list is shared by every
+    later binding, the route's list by every later re-binding -- is the accumulator or is changed in place."""
+    fi, recs = _merge_records(rep.repo)
+    for r in recs:
+        if r['key'].endswith('::starts with new') and r['complete'] is not None:
+            rep.check(rule, r['key'] + ' (a list of its own)', r['complete'][0], r['complete'][1], fi.mod, r['node'])
+    ps = fi.params()
+    muts = []
+    for e in effects.effects_in(fi.node, aug_names=True):
+        if e.root in ps and e.kind in ('store', 'delete', 'mutcall', 'augname') and not any(
+                isinstance(st_, ast.Assign) and isinstance(v, ast.Call) and call_name(v) in ('list', 'tuple') and
+                cfg_of(fi).must_pass(cfg_of(fi).nodes_of(st_), cfg_of(fi).entry, cfg_of(fi).nodes_of(stmt_of(fi.mod, e.node)))
+                for st_, v, idx in assigned_value(fi.node, e.root) if idx is None):
+            muts.append(e)
+    rep.check(rule, fkey(fi, 'arguments not changed in place'), not muts,
+              'merge_middlewares changes neither of the lists it is given' if not muts else
+              'merge_middlewares changes a list it was handed in place (%s): the caller\'s stack -- shared with later bindings -- grows '
+              'or shrinks with every merge' % short(muts[0].node, 60), fi.mod, muts[0].node if muts else fi.node)
+
+
 def check_merge_keeps_outer(rep, rule):
     """The middleware *instances* of the new (outer, binding application's) list are in the merged list, each at its
     position, none replaced: whoever holds a reference to an application-level middleware holds the object that runs."""
@@ -2405,6 +2535,41 @@ def check_execute_offers_provided(rep, rule):
               'execute() does not pass its call-time parameters on unfiltered (layers: %s)' % [l.text for l in ls], route, inj[0])
 
 
+def check_stack_pinned(rep, rule):
+    """A Route / an Application pins its own middleware stack when it is constructed: ``self.middlewares`` is a new sequence
+    built from what the caller passed (``list(..)`` / ``tuple(..)`` / ``[*..]`` / a slice), never the caller's list object
+    itself -- what the caller does to that list afterwards (before the route is bound) is not part of the route."""
+    repo = rep.repo
+    for modname, q in ((ROUTE, 'Route.__init__'), (APP, 'Application.__init__')):
+        mod = repo.mod(modname)
+        fi = mod.func(q)
+        sm = [s_ for s_ in stmts_of(fi.node) if isinstance(s_, (ast.Assign, ast.AnnAssign)) and
+              any(norm(t) == 'self.middlewares' for t in (s_.targets if isinstance(s_, ast.Assign) else [s_.target]))]
+        if not sm:
+            raise AnalysisError('%s: no assignment to self.middlewares' % q)
+
+        def fresh(e, depth=0):
+            e = _deref(fi, e) if depth < 3 else e
+            if isinstance(e, ast.Call) and call_name(e) in ('list', 'tuple') and len(e.args) <= 1 and not e.keywords:
+                return True
+            if isinstance(e, (ast.List, ast.Tuple)):
+                return True          # a display is a new object whatever it unpacks
+            if isinstance(e, (ast.ListComp,)):
+                return True
+            if isinstance(e, ast.Subscript) and isinstance(e.slice, ast.Slice):
+                return True
+            if isinstance(e, ast.BinOp) and isinstance(e.op, ast.Add):
+                return fresh(e.left, depth + 1) or fresh(e.right, depth + 1)
+            return False
+        bad = [s_ for s_ in sm if s_.value is None or not fresh(s_.value)]
+        ok = not bad
+        rep.check(rule, fkey(fi, 'own copy of the middleware list'), ok,
+                  '%s keeps a copy of the middleware list it is given' % q.split('.')[0] if ok else
+                  '%s stores the caller\'s middleware list object itself (%s): a list that is extended, re-ordered or emptied after the %s '
+                  'was created -- and before it is bound -- changes which middlewares run around its endpoint, and in which order'
+                  % (q, short(bad[0].value, 60), q.split('.')[0].lower()), mod, bad[0] if bad else sm[0])
+
+
 def check_merge_order(rep, rule):
     repo = rep.repo
     core = repo.mod(CORE)
@@ -2438,6 +2603,7 @@ def check_merge_order(rep, rule):
               'old <- the route\'s list, new <- the binding application\'s list: at every embedding level the outer list comes first' if ok else
               'merge_middlewares is called with (old=%s, new=%s): the binding application\'s middlewares must be the new (outer) list' % (o_old, o_new),
               route, c)
+    check_stack_pinned(rep, rule)
     st = stmt_of(route, c)
     sm = [s_ for s_ in stmts_of(bi.node) if isinstance(s_, ast.Assign) and any(norm(t) == 'self.middlewares' for t in s_.targets)]
     ok = len(sm) == 1
